@@ -14,13 +14,17 @@ TxUDef == <<
   Tx(<<In(99,1)>>, <<Out(1)>>),                                     \* 5: spends an output that never existed
   Tx(<<In(0,2)>>, <<Out(1001)>>),                                   \* 6: creates one satoshi
   Tx(<<In(1,2), In(3,1)>>, <<Out(800)>>),                           \* 7: spends outputs of 1 and 3
-  Tx(<<In(1,1), In(1,2), In(1,1)>>, <<Out(1200)>>)                  \* 8: duplicate input separated by a sibling output of the same tx
+  Tx(<<In(1,1), In(1,2), In(1,1)>>, <<Out(1200)>>),                 \* 8: duplicate input separated by a sibling output of the same tx
+  [ins |-> <<In(0,2)>>, outs |-> <<Out(900)>>, ver |-> 1, lock |-> NoLock, bulk |-> 8784],  \* 9: plus 8784 outputs of 21M BTC and a residue: the 64-bit sum wraps to 900
+  Tx(<<In(0,2)>>, <<[v |-> 950, cls |-> "big"]>>),                  \* 10: output with a spendable script of exactly 10000 bytes (the largest that enters the UTXO set)
+  Tx(<<In(10,1)>>, <<Out(940)>>)                                    \* 11: spends it
 >>
 ListsDef == { <<>>, <<1>>, <<2>>, <<3>>, <<1,3>>, <<3,1>>, <<1,2>>, <<4>>, <<5>>, <<6>>, <<1,3,7>>, <<7>> }
 ListsSmall == { <<>>, <<1>>, <<2>>, <<3>>, <<1,3>>, <<3,1>>, <<1,2>>, <<4>>, <<6>> }
-ListsC01 == { <<>>, <<1>>, <<6>>, <<1,3>>, <<2>> }
+ListsC01 == { <<>>, <<1>>, <<6>>, <<1,3>>, <<2>>, <<9>> }
 ListsC02 == { <<>>, <<1>>, <<2>>, <<3>>, <<1,3>>, <<3,1>>, <<1,2>>, <<4>>, <<5>>, <<8>> }
 ListsC09 == { <<>>, <<1>>, <<2>>, <<1,3>> }
-ListsC09T == { <<>>, <<1>>, <<2>>, <<1,3>>, <<3>>, <<1,3,7>> }
+ListsC09Big == { <<>>, <<10>>, <<11>>, <<2>> }
+ListsC09T == { <<>>, <<1>>, <<2>>, <<1,3>>, <<3>>, <<1,3,7>>, <<10>>, <<11>>, <<10,11>> }
 BaseDef == << [v |-> 1000, h |-> 1], [v |-> 1000, h |-> 2] >>
 ====
